@@ -84,16 +84,16 @@ Print Assumptions C16_count_is_ledger_length_every_schedule.
 Check (C16_returned_drains_are_logged : forall cap ps sched,
   let c := fst (exec step site (init_config cap ps) sched) in
   forall u x d, nth_error (snd c) u = Some x -> In (MConsume d) (results x) ->
-                exists W St, In (d, W, St) (glog (fst c))).
+                exists W St k, In (d, W, St, k) (glog (fst c))).
 Print Assumptions C16_returned_drains_are_logged.
 Check (C16_concurrent_accounting_except_late_push : forall cap ps sched,
   let c := fst (exec step site (init_config cap ps) sched) in
   late (fst c) = false ->
-  forall d W St, In (d, W, St) (glog (fst c)) ->
+  forall d W St k, In (d, W, St, k) (glog (fst c)) ->
     Permutation St W /\
     d_unsampled d = N.of_nat (length St) /\
     d_len d = N.min (d_unsampled d) (N.of_nat cap) /\
-    N.of_nat (length (d_vals d)) <= d_len d /\
+    N.of_nat (length (d_vals d)) = takeof k (d_len d) /\
     (forall v, In v (d_vals d) -> In v St) /\
     (d_unsampled d <= N.of_nat cap -> d_vals d = firstn (length (d_vals d)) W) /\
     sample_rate d = (if d_unsampled d <=? N.of_nat cap then (1, 1) else (N.of_nat cap, d_unsampled d))).
@@ -101,11 +101,11 @@ Print Assumptions C16_concurrent_accounting_except_late_push.
 Check (C16_concurrent_accounting_outside_known_class : forall cap progs sched,
   known_class (CThr cap progs sched) = None ->
   let c := fst (exec_full step site rr_fuel (init_config (N.to_nat cap) progs) (map N.to_nat sched)) in
-  forall d W St, In (d, W, St) (glog (fst c)) ->
+  forall d W St k, In (d, W, St, k) (glog (fst c)) ->
     Permutation St W /\
     d_unsampled d = N.of_nat (length St) /\
     d_len d = N.min (d_unsampled d) cap /\
-    N.of_nat (length (d_vals d)) <= d_len d /\
+    N.of_nat (length (d_vals d)) = takeof k (d_len d) /\
     (forall v, In v (d_vals d) -> In v St) /\
     (d_unsampled d <= cap -> d_vals d = firstn (length (d_vals d)) W) /\
     sample_rate d = (if d_unsampled d <=? cap then (1, 1) else (cap, d_unsampled d))).
